@@ -5,7 +5,8 @@ set -u
 cd "$(dirname "$0")/.."
 export GOFLAGS=-mod=mod GOPROXY=off GOSUMDB=off GOTOOLCHAIN=local GOWORK=off
 jobs=${1:-6}
-props=$(python3 -c "import json; print(' '.join(c['property_id'] for c in json.load(open('MANIFEST.json'))['checks']))")
+# PROPS="C05 C06" restricts the columns, SEEDS="C05-r8m1 ..." the rows; results are merged into the existing MATRIX.json
+props=${PROPS:-$(python3 -c "import json; print(' '.join(c['property_id'] for c in json.load(open('MANIFEST.json'))['checks']))")}
 out=$(mktemp -d /tmp/archematrix-XXXXXX)
 one() {
   seed=$1; d=$(mktemp -d /tmp/archemut-XXXXXX)
@@ -26,19 +27,31 @@ one() {
   rm -rf "$d"
 }
 export -f one; export out props
-ls -d seeded/*/ | xargs -n1 basename | xargs -P "$jobs" -I{} bash -c 'one {}'
+{ if [ -n "${SEEDS:-}" ]; then printf '%s\n' $SEEDS; else ls -d seeded/*/ | xargs -n1 basename; fi; } | xargs -P "$jobs" -I{} bash -c 'one {}'
 python3 - "$out" <<'PY'
 import json, sys, os, glob
 out = sys.argv[1]
 m = {}
+old = {}
+if (os.environ.get('PROPS') or os.environ.get('SEEDS')) and os.path.exists('/verif/seeded/MATRIX.json'):
+    old = json.load(open('/verif/seeded/MATRIX.json'))
 for f in sorted(glob.glob(out + '/*.json')):
     try:
         d = json.load(open(f))
     except Exception as e:
         d = {"seed": os.path.basename(f)[:-5], "error": "unparsable result: %s" % e}
     m[d["seed"]] = d
+fresh = set(m)
+for s_, d in old.items():
+    if s_ not in m:
+        m[s_] = d
+    elif "results" in d and "results" in m[s_]:
+        r = dict(d["results"]); r.update(m[s_]["results"]); m[s_]["results"] = dict(sorted(r.items()))
+m = dict(sorted(m.items()))
 json.dump(m, open('/verif/seeded/MATRIX.json', 'w'), indent=1)
 for s, d in m.items():
+    if old and s not in fresh:
+        continue
     if "results" not in d:
         print(s, d.get("error")); continue
     caught = [p for p, r in d["results"].items() if r["exit"] == 1]
@@ -47,7 +60,7 @@ for s, d in m.items():
     mp = '/verif/seeded/%s/meta.json' % s
     if os.path.exists(mp):
         meta = json.load(open(mp))
-        meta["caught_by"] = {p: d["results"][p]["reports"][:3] for p in caught}
+        meta["caught_by"] = {p: d["results"][p]["reports"][:3] for p in sorted(caught)}
         json.dump(meta, open(mp, 'w'), indent=1)
 PY
 rm -rf "$out"
